@@ -57,6 +57,8 @@ def configs(tier):
             for num in ('extrapol2d1', 'extrapol2dk'):
                 out.append({'level': 'operator2d', 'nx': nx, 'ny': ny, 'flux': fl, 'num': num, 'bc': 'per'})
                 out.append({'level': 'operator2d', 'nx': nx, 'ny': ny, 'flux': fl, 'num': num, 'bc': 'sym'})
+    # a square grid as well (per-side arrays of equal length on all four sides), closed box with one shared wall dictionary
+    out.append({'level': 'operator2d', 'nx': 2, 'ny': 2, 'flux': 'centered', 'num': 'extrapol2d1', 'bc': 'sym'})
     IMPL = ('implicit', 'backwardeuler', 'trapezoidal', 'cranknicolson', 'gear')
     for integ in INTEGS:
         if integ in IMPL:
